@@ -530,3 +530,55 @@ Lemma agrees_refuted :
   /\ (wf_sig sig_po = true /\ method_invoke sig_po CtxNone JNull (PPos [JInt 1]) = InvCallFail
       /\ direct_call sig_po CtxNone JNull (PPos [JInt 1]) = Some [("a", Given (JInt 1))]).
 Proof. vm_compute. repeat split; try reflexivity; discriminate. Qed.
+
+(* ---------- C17: documented parameters are the accepted parameters ---------- *)
+(* the schema extractor keeps the positional-or-keyword and keyword-only parameters that are not excluded
+   (specs/extractors/pydantic.py _build_params_model); required = no default *)
+Definition documented (s : sig) (excl : list string) : list param :=
+  filter (fun p => negb (mem_str (pname p) excl) && match pk p with PK | KO => true | _ => false end) s.
+Definition documented_names (s : sig) (excl : list string) : list string := map pname (documented s excl).
+Definition documented_required (s : sig) (excl : list string) : list string :=
+  map pname (filter (fun p => negb (pdef p)) (documented s excl)).
+
+Lemma documented_simple s n : simple_sig s = true -> documented s [n] = sig_exclude n s.
+Proof.
+  unfold documented, sig_exclude, simple_sig. intros H. apply filter_ext_in. intros p Hp.
+  rewrite forallb_forall in H. specialize (H p Hp). unfold mem_str. cbn. rewrite orb_false_r.
+  destruct (pk p); try discriminate; rewrite andb_true_r; reflexivity.
+Qed.
+Lemma documented_simple_nil s : simple_sig s = true -> documented s [] = s.
+Proof.
+  unfold documented, simple_sig. intros H. induction s as [|p s IH]; cbn in *; auto.
+  apply andb_true_iff in H. destruct H as [H1 H2]. destruct (pk p); try discriminate; cbn; rewrite IH; auto.
+Qed.
+
+Lemma sbk_required s : simple_sig s = true -> names_distinct s = true -> forall d kw,
+  sig_bind_kw_go s d None = Some kw -> forall p, In p s -> pdef p = false -> get (pname p) d <> None.
+Proof.
+  induction s as [|q s IH]; intros Hs Hd d kw E p Hp Hdp Hg; [destruct Hp|].
+  destruct (simple_cons _ _ Hs) as [Hk Hs']. destruct (distinct_cons _ _ Hd) as [Hq Hd'].
+  cbn [sig_bind_kw_go] in E. destruct Hp as [->|Hp].
+  - rewrite Hg, Hdp in E. destruct Hk as [Hk|Hk]; rewrite Hk in E; discriminate.
+  - destruct (get (pname q) d) eqn:Eg.
+    + destruct (sig_bind_kw_go s (remove_all (pname q) d) None) as [r|] eqn:Er;
+        [|destruct Hk as [Hk|Hk]; rewrite Hk in E; cbn in E; discriminate].
+      eapply (IH Hs' Hd' _ _ Er p Hp Hdp). rewrite get_remove_all, Hg. destruct (String.eqb _ _); auto.
+    + destruct (pdef q); [|destruct Hk as [Hk|Hk]; rewrite Hk in E; discriminate].
+      assert (E' : sig_bind_kw_go s d None = Some kw) by (destruct Hk as [Hk|Hk]; rewrite Hk in E; exact E).
+      eapply (IH Hs' Hd' _ _ E' p Hp Hdp); auto.
+Qed.
+
+(* a params OBJECT binds iff it names only documented parameters and all the required ones *)
+Theorem mapping_binds_iff s d : simple_sig s = true -> names_distinct s = true ->
+  ((exists kw, sig_bind_kw s d = Some kw) <->
+   ((forall n, In n (keys d) -> In n (names s)) /\ (forall p, In p s -> pdef p = false -> In (pname p) (keys d)))).
+Proof.
+  intros Hs Hd. unfold sig_bind_kw. split.
+  - intros [kw E]. destruct (sbk_some s Hs Hd d kw E) as [_ [B _]]. split; auto.
+    intros p Hp Hdp. pose proof (sbk_required s Hs Hd d kw E p Hp Hdp) as Hg.
+    destruct (get (pname p) d) eqn:Eg; [eapply get_In_keys; eauto|congruence].
+  - intros [A B]. destruct (sig_bind_kw_go s d None) as [kw|] eqn:E; [eauto|].
+    exfalso. destruct (sbk_none s Hs Hd d E) as [[n [Hin Hn]]|[q [Hq [Hdq Hgq]]]].
+    + apply Hn, A, Hin.
+    + apply (get_none_notin _ _ Hgq). apply B; auto.
+Qed.
